@@ -56,3 +56,63 @@ def box_case(path):
                 and t[2][0] == ("attr", ("param", "env"), "action_space") and t[2][1] == ("global", "lerax.space.box.Box"):
             return v
     return None
+
+
+# ----------------------------------------------------------------------------- shared producer-side facts
+def on_policy_rows(s):
+    """Per static case of AbstractActorCriticOnPolicyAlgorithm.step: the buffer row written and the reference dataflow.
+    Used by the consumers of the rollout (C03 estimator, C08 losses) for the clauses that compose producer and consumer."""
+    from ..model import AnalysisError
+    from ..norm import Normalizer
+    from ..vgraph import strip_keys
+    from .util import fields, live
+
+    cls = "AbstractActorCriticOnPolicyAlgorithm"
+    b = s.builder(inline=set())
+    nz = Normalizer(b)
+    out = []
+    for p in live(s.paths(b, cls, "step")):
+        box = box_case(p)
+        if box is None:
+            raise AnalysisError(f"{cls}.step: static case split on isinstance(env.action_space, Box) vanished")
+        ref = s.refprog(b, ON_POLICY.replace("{ACT}", ACT_BOX if box else ACT_OTHER), BIND)
+        ret = strip_keys(p.ret)
+        if not (isinstance(ret, tuple) and ret[0] == "tuple" and len(ret[1]) == 2):
+            raise AnalysisError(f"{cls}.step[Box={box}]: step does not return (step state, buffer row)")
+        row = fields(ret[1][1])
+        if not row:
+            raise AnalysisError(f"{cls}.step[Box={box}]: buffer row is not a record construction")
+        from ..vgraph import walk
+        raw_row = fields(p.ret[1][1]) or {}
+        avs_raw = {x for x in walk(("tuple", tuple(v for v in raw_row.values() if v is not None))) if isinstance(x, tuple) and x and x[0] == "call"
+                   and isinstance(x[1], tuple) and x[1][0] == "attr" and x[1][2] == "action_and_value"}
+        out.append({"con": f"{cls}.step[Box={box}]", "box": box, "row": row, "ref": ref, "b": b, "nz": nz, "loc": s.loc(cls, "step"),
+                    "policy_calls": len(avs_raw)})
+    if {o["box"] for o in out} != {True, False}:
+        raise AnalysisError(f"{cls}.step: expected both static action-space cases")
+    return out
+
+
+def off_policy_adds(s):
+    """Per static case of AbstractOffPolicyAlgorithm.step: the arguments of the one buffer.add call and the reference dataflow."""
+    from ..model import AnalysisError
+    from ..norm import Normalizer
+    from ..vgraph import strip_keys
+    from .util import bind_args, fields, live
+
+    cls = "AbstractOffPolicyAlgorithm"
+    b = s.builder(inline=set())
+    nz = Normalizer(b)
+    _, _, fadd = s.method("ReplayBuffer", "add")
+    out = []
+    for p in live(s.paths(b, cls, "step")):
+        box = box_case(p)
+        ref = s.refprog(b, OFF_POLICY.replace("{ACT}", ACT_BOX if box else ACT_OTHER), BIND)
+        st = fields(strip_keys(p.ret))
+        buf = st.get("buffer") if st else None
+        if not (isinstance(buf, tuple) and buf[0] == "call" and buf[1] == ("attr", ("attr", ("param", "state"), "buffer"), "add")):
+            raise AnalysisError(f"{cls}.step[Box={box}]: the carried buffer is not state.buffer.add(...)")
+        out.append({"con": f"{cls}.step[Box={box}]", "box": box, "args": bind_args(fadd, buf[2], buf[3]), "ref": ref, "b": b, "nz": nz, "loc": s.loc(cls, "step")})
+    if {o["box"] for o in out} != {True, False}:
+        raise AnalysisError(f"{cls}.step: expected both static action-space cases")
+    return out
